@@ -755,3 +755,21 @@ def analyse_tu(tu):
     stats["pin_transfer"] = {"consumes": {k: sorted(v) for k, v in ctx["consumes"].items() if v},
                              "returns_pinned": sorted(ctx["ret_pinned"])}
     return dict(findings=findings, stats=stats)
+
+
+def ghost_reads_in(tu, roots):
+    """GHOST-READ findings of the pin typestate restricted to the functions named
+    in `roots` and the functions of the unit they call directly: the necessary
+    condition "what this machinery computes with is read from activated nodes"
+    for properties other than C05.  Returns (findings, sorted function names)."""
+    fns = set(r for r in roots if r in tu.funcs)
+    for r in list(fns):
+        for c in tu.funcs[r].walk():
+            if c.k == "CallExpr" and callee(c)[0] == "fn" and callee(c)[1] in tu.funcs:
+                try:
+                    tu.body(callee(c)[1])
+                    fns.add(callee(c)[1])
+                except AnalysisError:
+                    pass
+    pr = analyse_tu(tu)
+    return [f for f in pr["findings"] if f["rule"] == "GHOST-READ" and f.get("function") in fns], sorted(fns)
